@@ -355,11 +355,18 @@ def decide_slow(idx, seed):
         if a["msg"] == "Game solved" and b["msg"] == "Game solved":
             res["stats"]["slow_solved"] = res["stats"].get("slow_solved", 0) + 1
             continue
-        # reported as not solved: only legitimate if the solver's own criterion for 'no solution' holds, i.e. an unpruned solve
-        # succeeds and reports exactly 0 for the initial state
+        # reported as not solved: legitimate if the initial state cannot reach the winning state against the light at all (exact graph
+        # criterion) or, by the solver's own criterion, if an unpruned solve reports exactly 0 for the initial state
+        from .. import oracle as _o
+        og = _o.Game(g["players"], g["transition_list"], g["final_states"], [0] * n)
+        if 0 not in _o.positive_set(og):
+            res["stats"]["slow_nosol"] = res["stats"].get("slow_nosol", 0) + 1
+            continue
         out = monitors.observed_solve(boards_common.fresh(g), False, int(3e6 * 3 * (n + m)))
         if out.status == "ok" and out.result[3][0] == 0:
             res["stats"]["slow_nosol"] = res["stats"].get("slow_nosol", 0) + 1
+        elif boards_common.is_d8(out):
+            res["stats"]["slow_known_divergence"] = res["stats"].get("slow_known_divergence", 0) + 1
         else:
             problems.append({"game": name, "problem": "game reported as not solved although it is neither solved nor without solution by the solver's own criterion",
                              "msgs": [a["msg"], b["msg"]], "unpruned_solve": out.brief()})
